@@ -36,6 +36,8 @@ TNext == /\ l <= Len(Tr)
               \/ e.a = "recv" /\ e.late = 0 /\ Apply(e, StepRecv(h, e.fs), e.fs)
               \/ e.a = "recv" /\ e.late = 1 /\ InWindow(e.t - tw) /\ Apply(e, StepRecvLate(h, e.fs), e.fs)
               \/ e.a = "tick" /\ TimerEnabled(h) /\ InWindow(e.t - tw) /\ Apply(e, StepTick(h), <<>>)
+              \* a timer of the loop fired and nothing observable happened while the ACK timer is not overdue: stuttering
+              \/ e.a = "tick" /\ e.out = <<>> /\ (~TimerEnabled(h) \/ e.t - tw < TMax) /\ UNCHANGED <<h, obs, o4, tw>>
               \/ e.a = "end" /\ h.cur.id = 0 /\ h.q = <<>> /\ e.pending = <<>> /\ e.out = <<>>
                              /\ UNCHANGED <<h, obs, o4, tw>>
          /\ l' = l + 1
